@@ -642,6 +642,7 @@ type retCase struct {
 	Ret  *ssa.Return
 	Vals []ssa.Value
 	Via  *ssa.BasicBlock // the block control came from (where the values were chosen); the return's own block if no phi was split
+	Into *ssa.BasicBlock // the merge block entered from Via (nil if no phi was split): the case runs on the edge Via -> Into
 	N    int             // running number, for messages
 }
 
@@ -652,8 +653,8 @@ type retCase struct {
 func returnCases(fn *ssa.Function) []retCase {
 	var out []retCase
 	n := 0
-	var expand func(ret *ssa.Return, vals []ssa.Value, via *ssa.BasicBlock, depth int)
-	expand = func(ret *ssa.Return, vals []ssa.Value, via *ssa.BasicBlock, depth int) {
+	var expand func(ret *ssa.Return, vals []ssa.Value, via, into *ssa.BasicBlock, depth int)
+	expand = func(ret *ssa.Return, vals []ssa.Value, via, into *ssa.BasicBlock, depth int) {
 		var blk *ssa.BasicBlock
 		if depth < 3 {
 			for _, v := range vals {
@@ -666,7 +667,7 @@ func returnCases(fn *ssa.Function) []retCase {
 		}
 		if blk == nil {
 			n++
-			out = append(out, retCase{ret, vals, via, n})
+			out = append(out, retCase{ret, vals, via, into, n})
 			return
 		}
 		for k, pred := range blk.Preds {
@@ -678,11 +679,11 @@ func returnCases(fn *ssa.Function) []retCase {
 					nv[i] = v
 				}
 			}
-			expand(ret, nv, pred, depth+1)
+			expand(ret, nv, pred, blk, depth+1)
 		}
 	}
 	for _, ret := range returnsOf(fn) {
-		expand(ret, results(ret), ret.Block(), 0)
+		expand(ret, results(ret), ret.Block(), nil, 0)
 	}
 	return out
 }
